@@ -230,6 +230,7 @@ type Stats struct {
 	Forwarded, NotFwdLoop, NotFwdDead, NotFwdHop, NotFwdSuppressed, NotFwdNoNonce int
 	FibChanges, CsHits, Expired, Satisfied, Evictable                             int
 	FaceDown, FaceUp, VanishedArrival, DataForGoneFace, HopViaGoneFace            int
+	MangledToken                                                                  int
 	LocalhostNonLocalCandidate, LocalhostLocalExchange, LocalhostInboundRejected  int
 	RetxForwarded, HintUsed, NextHopUsed, AllowedArrivalCopy, LapsedAllowed       int
 	ReusedSatisfied                                                               int
@@ -988,6 +989,19 @@ func (m *Model) ResolveToken(op Op) (tok []byte, ok bool) {
 		}
 		b, _ := hex.DecodeString(h)
 		return b, true
+	case "mangled":
+		// the token the forwarder attached to a forwarded Interest, with the part that names the
+		// forwarding thread replaced by a thread that does not exist
+		h, ok := m.tokOp[op.TokRef]
+		if !ok {
+			return nil, false
+		}
+		b, _ := hex.DecodeString(h)
+		if len(b) != 6 {
+			return nil, false
+		}
+		b[0], b[1] = 0x7f, 0xfe
+		return b, true
 	default:
 		b, _ := hex.DecodeString(op.Tok)
 		return b, true
@@ -1016,6 +1030,26 @@ func (m *Model) Data(idx int, op Op, wire []byte, tok []byte, em []Emission) *Vi
 		m.refused[op.N] = true
 		if len(em) > 0 {
 			return viol("C09", "Data #%d %s arrived on non-local face %d and was emitted on face %d", idx, op.N, op.F, em[0].Face)
+		}
+		return nil
+	}
+	if op.TokKind == "mangled" {
+		// Not a token this forwarder attached. Whether a six-byte token naming no forwarding thread
+		// counts as "in this forwarder's format" (the Data is then dropped: it echoes nothing) or
+		// not (the Data is matched by name) is open -- but its name matches no pending Interest,
+		// so nobody may receive it either way.
+		m.St.MangledToken++
+		for k, e := range m.pit {
+			if (k.Name == op.N || (k.CBP && isPrefix(k.Name, op.N))) && (len(e.in) > 0 || len(e.out) > 0) {
+				m.tainted = "Data with a token naming no forwarding thread also matches a pending Interest by name"
+				return nil
+			}
+		}
+		if len(em) > 0 {
+			return viol("C01", "Data #%d %s carries token %q, which this forwarder never attached (it names a forwarding thread that does not exist), and matches no pending Interest by name, but was emitted on face %d", idx, op.N, tokHex(tok), em[0].Face)
+		}
+		if m.cfg.CsAdmit {
+			m.tainted = "whether Data with a token naming no forwarding thread is admitted to the cache is open"
 		}
 		return nil
 	}
